@@ -482,8 +482,9 @@ def c10(M, ctx):
 
 
 # ----------------------------------------------------------------------------------------------- C14 (integration)
-def c14(M, ctx):
-    """Component state vs task states at every recorded step (live, and in the logs under the display rule)."""
+def c14(M, ctx, logs_in_run_order=True):
+    """Component state vs task states at every recorded step (live, and in the logs under the display rule).
+    The temporal clauses are also judged on the whole log (it spans a stopped and continued run) unless the log was reversed."""
     for ci, c in enumerate(M.comps):
         tids = [i for i, ts in enumerate(M.spec["tasks"]) if ts.get("comp") == ci]
         was_not_none = False
@@ -509,8 +510,16 @@ def c14(M, ctx):
                 was_not_none = was_not_none or cs != NONE
                 was_finished = was_finished or cs == FINISHED
         # logs
+        log_not_none = log_finished = False
         for t in range(len(c.state_record_list)):
             cs = int(c.state_record_list[t])
+            if logs_in_run_order:
+                if log_not_none and cs == NONE:
+                    ctx.fail("C14:log-returned-to-none")
+                if log_finished and cs != FINISHED:
+                    ctx.fail("C14:log-left-finished")
+                log_not_none = log_not_none or cs != NONE
+                log_finished = log_finished or cs == FINISHED
             tstates = [int(M.tasks[i].state_record_list[t]) for i in tids]
             if (cs == FINISHED) != all(s == FINISHED for s in tstates):
                 ctx.fail("C14:log-finished-iff-all-finished")
